@@ -24,12 +24,51 @@ Definition heap_of (ds : list odesc) : heap :=
 
 Definition hooks_of (s : snap) : hooks := fun o => snap_get s o.
 
+(* To keep the case terms small, graphs are written once, in a per-case table, and referred to by
+   index in operations and in maintainer notifiers. *)
+Inductive rnotifier :=
+| RUser (k : key) (rc : nat)
+| RMaint (m : mkind) (gi : nat) (k : key)
+| RForeign (i : nat).
+Definition rsnap := list (obsv * list rnotifier).
+Inductive rop :=
+| RRegister (x : oid) (hd dp : nat) (gis : list nat)
+| RUnregister (x : oid) (hd dp : nat) (gis : list nat)
+| RChange (o : oid) (f : fname)
+| RCollectOwner (hd : nat)
+| RCollectObj (o : oid).
+Record riobs := mkRI { r_out : option exn; r_calls : list nat; r_snap : rsnap; r_dead : option bool }.
+
 Record case := mkCase {
   c_heap : list odesc;
   c_univ : list obsv;
-  c_init : snap;
-  c_hist : list (op * iobs);
+  c_graphs : list graph;
+  c_rinit : rsnap;
+  c_rhist : list (rop * riobs);
   c_pool_collected : bool }.
+
+Definition gref (gt : list graph) (i : nat) : graph := nth i gt (G (NNamed 0%nat false false) []).
+Definition notifier_of (gt : list graph) (n : rnotifier) : notifier :=
+  match n with
+  | RUser k rc => NUser k rc
+  | RMaint m gi k => NMaint m (gref gt gi) k
+  | RForeign i => NForeign i
+  end.
+Definition snap_of (gt : list graph) (s : rsnap) : snap :=
+  map (fun p => (fst p, map (notifier_of gt) (snd p))) s.
+Definition op_of (gt : list graph) (o : rop) : op :=
+  match o with
+  | RRegister x hd dp gis => Register x hd dp (map (gref gt) gis)
+  | RUnregister x hd dp gis => Unregister x hd dp (map (gref gt) gis)
+  | RChange o f => Change o f
+  | RCollectOwner hd => CollectOwner hd
+  | RCollectObj o => CollectObj o
+  end.
+Definition iobs_of (gt : list graph) (r : riobs) : iobs :=
+  mkI (r_out r) (r_calls r) (snap_of gt (r_snap r)) (r_dead r).
+Definition c_init (c : case) : snap := snap_of (c_graphs c) (c_rinit c).
+Definition c_hist (c : case) : list (op * iobs) :=
+  map (fun p => (op_of (c_graphs c) (fst p), iobs_of (c_graphs c) (snd p))) (c_rhist c).
 
 Fixpoint natlist_eqb (a b : list nat) : bool :=
   match a, b with
@@ -63,3 +102,12 @@ Definition corr_codes (c : case) : list Z :=
 Definition law_codes (c : case) : list Z :=
   map Z.of_nat (law_hist (heap_of (c_heap c)) (c_univ c) (c_init c) 0 (mkL [] []) [] [] (c_init c) (c_hist c)
                 ++ (if c_pool_collected c then [] else [7%nat])).
+
+(* typed constructors for the generated case terms (elaboration of plain tuples is several times slower) *)
+Definition od (x : oid) (k : okind) (ts : list fname) (ls : list (fname * list oid)) (it : list oid) : odesc :=
+  (x, k, ts, ls, it).
+Definition lk (f : fname) (v : list oid) : fname * list oid := (f, v).
+Definition ov (o : oid) (f : fname) : obsv := (o, f).
+Definition se (o : oid) (f : fname) (ns : list rnotifier) : obsv * list rnotifier := ((o, f), ns).
+Definition ky (h t d : nat) : key := (h, t, d).
+Definition hs (o : rop) (r : riobs) : rop * riobs := (o, r).
